@@ -33,7 +33,7 @@ let eval case impl =
            if returned && ndone = njobs && int_of_nat s.M.p_sent = njobs then "ACCEPTED" else
              Printf.sprintf "INCOMPLETE returned=%b done=%d sent=%d" returned ndone (int_of_nat s.M.p_sent)
          | None -> "REJECTED") in
-    let side_ok = List.for_all (fun t -> t = "counts=ok" || t = "par=ok") rest in
+    let side_ok = List.for_all (fun t -> t = "counts=ok" || t = "par=ok" || t = "unwound=ok") rest in
     let ok = verdict = "ACCEPTED" && side_ok in
     ((if verdict = "ACCEPTED" then impl else verdict), if ok then [] else [("C13", "-")])
   | [] -> ("?", [("C13", "-")])
